@@ -46,3 +46,44 @@ Proof.
                 (conj (predicate_match_value root e items H) (predicate_exists_true root e))).
 Qed.
 Print Assumptions C15_predicate_every_mode.
+
+(* ---- the result writers of the selector on byte positions (SelWalk.v build_values / build_scalar_array) ---- *)
+From JB Require Import SelWalk SelWalkProofs.
+
+(* build_values copies out the complete document of every item the positions denote and pushes the running ends *)
+Theorem C15_bytes_build_values : forall bs poses items, Forall2 (den bs) poses items ->
+  forall data offs, build_values_w bs poses data offs = Ok (build_values data items offs).
+Proof. exact build_values_w_den. Qed.
+Print Assumptions C15_bytes_build_values.
+(* build_scalar_array writes exactly the encoding of the array of the denoted items *)
+Theorem C15_bytes_build_array : forall bs poses items, Forall2 (den bs) poses items ->
+  forall data, build_scalar_array_w bs poses data = Ok (build_array_items data items).
+Proof. exact build_scalar_array_w_den. Qed.
+Print Assumptions C15_bytes_build_array.
+
+(* the mode laws for the selector on the bytes of any well-formed document *)
+Section C15_bytes.
+  Variables (v : value) (ps : list path) (items : list value).
+  Hypothesis Hwf : wfb v = true.
+  Hypothesis Hsel : find_positions PATH_FUEL (normalise v) None ps = Ok items.
+  Hypothesis Hnp : is_predicate ps = false.
+  Theorem C15_bytes_first_is_head_of_all : forall buf,
+    select_w (enc v) ps MFirst buf = Ok (match items with [] => (buf, []) | x :: _ => (buf ++ enc x, [lenN buf + lenN (enc x)]) end).
+  Proof. exact (select_w_first_is_head v ps items Hwf Hsel Hnp). Qed.
+  Theorem C15_bytes_array_holds_all : forall buf,
+    select_w (enc v) ps MArray buf = Ok (buf ++ enc (VArr items), [lenN buf + lenN (enc (VArr items))]).
+  Proof. exact (select_w_array_holds_all v ps items Hwf Hsel Hnp). Qed.
+  Theorem C15_bytes_mixed : forall buf,
+    select_w (enc v) ps MMixed buf = if (1 <? length items)%nat then select_w (enc v) ps MArray buf else select_w (enc v) ps MAll buf.
+  Proof. exact (select_w_mixed v ps items Hwf Hsel Hnp). Qed.
+  Theorem C15_bytes_exists_iff_nonempty : sel_exists_w (enc v) ps = Ok (negb (match items with [] => true | _ => false end)).
+  Proof. exact (sel_exists_w_iff_nonempty v ps items Hwf Hsel Hnp). Qed.
+  Theorem C15_bytes_offsets_delimit_items :
+    exists data offs, select_w (enc v) ps MAll [] = Ok (data, offs) /\ cut data 0 offs = map enc items.
+  Proof. exact (select_w_offsets_delimit v ps items Hwf Hsel Hnp). Qed.
+End C15_bytes.
+Print Assumptions C15_bytes_first_is_head_of_all.
+Print Assumptions C15_bytes_array_holds_all.
+Print Assumptions C15_bytes_mixed.
+Print Assumptions C15_bytes_exists_iff_nonempty.
+Print Assumptions C15_bytes_offsets_delimit_items.
